@@ -32,6 +32,9 @@ impl MoovBox {
         for trak in self.traks.iter() {
             size += trak.box_size();
         }
+        if let Some(mvex) = &self.mvex {
+            size += mvex.box_size();
+        }
         if let Some(meta) = &self.meta {
             size += meta.box_size();
         }
@@ -138,6 +141,9 @@ impl<W: Write> WriteBox<&mut W> for MoovBox {
         self.mvhd.write_box(writer)?;
         for trak in self.traks.iter() {
             trak.write_box(writer)?;
+        }
+        if let Some(mvex) = &self.mvex {
+            mvex.write_box(writer)?;
         }
         if let Some(meta) = &self.meta {
             meta.write_box(writer)?;
